@@ -259,8 +259,18 @@ func execC45(c run.Case) (res run.Result) {
 		deadline := time.Now().Add(c44Watchdog)
 		for _, o := range outcomes {
 			for o.ws != nil && o.upgraded && len(o.ws.received()) == 0 {
-				if time.Now().After(deadline) {
-					h.inconclusive("first result not delivered before the watchdog")
+				ended := false
+				select {
+				case <-o.ws.done:
+					ended = true
+				default:
+				}
+				if ended || time.Now().After(deadline) {
+					h.pump()
+					o.ws.mu.Lock()
+					rerr := o.ws.readErr
+					o.ws.mu.Unlock()
+					h.inconclusive(fmt.Sprintf("first result not delivered to client #%d (connection ended: %v, read error: %v; compiles begun %d ended %d, broadcasts %d, compile loop %s)", o.idx, ended, rerr, h.m.compileBegin, h.m.compileEnd, h.m.bcEnd, h.m.clLast))
 					break
 				}
 				time.Sleep(time.Millisecond)
